@@ -157,6 +157,7 @@ def run(tier, seed):
     chk.sample(dict(f7_witness=fq.describe(rows[0]["case"]), outcome=rows[0]["impl"].get("outcome")))
 
     wiring(chk, binary, r, thorough)
+    validated += fq.run_runner_scenarios(chk, binary, r, thorough, TAGS, PROP, with_f7=True)
 
     chk.assumptions = [
         "what runs between 'future created' and 'process spawned/exited' is tokio's and the OS's: real "
